@@ -164,6 +164,17 @@ check('C14', 'model_checking',
       'TLA+ contract on WHERE trees, TLC-enumerated trees replayed into the planner, TLC-judged plan facts',
       'DESIGN.md 2.7, 5/C14')
 
+check('C15', 'translation_validation',
+      'TSWindow.tla defines the set of admissible model inputs (selected rows + the window most recent rows before the '
+      'lower bound, per partition, ties chosen freely, NULL times excluded); 9 time conditions x partition filters x '
+      'window 1..2 x 0..2 group columns x model left/right x LIMIT are planned by the real planner and PlanExec.tla '
+      'executes the data part of each plan (DISTINCT partition fetch, map-reduce with $var injection, ORDER BY/LIMIT '
+      'fetches) over a seeded sample of (thorough: all) tables of <= 3 rows, exploring every admissible outcome; the '
+      'rows handed to the model must be admissible. Output filter, LIMIT placement and refusals are compared.',
+      'Small tables (ties, NULL times, empty partitions included); the model is not executed.',
+      'translation validation in TLC: plan interpreter + TLA+ definition of the admissible model input',
+      'DESIGN.md 2.7, 5/C15')
+
 ALL = ['C%02d' % i for i in range(1, 21)]
 
 
